@@ -372,6 +372,15 @@ func init() {
 				}
 			}
 		}
+		// lists longer than the ring of sequence numbers: the whole ring from some start plus a few repeats
+		for _, start := range []int{1000} {
+			seqs := make([]uint16, 0, 65540)
+			for j := 0; j < 65536; j++ {
+				seqs = append(seqs, uint16(start+j))
+			}
+			seqs = append(seqs, uint16(start), uint16(start+5))
+			scriptNack(s, seqs)
+		}
 		for i := 0; i < n; i++ {
 			if i%6 == 5 {
 				// a progression with an arbitrary stride
@@ -649,7 +658,7 @@ func init() {
 		sweepSet([]string{"loss24", "header32", "nack32", "sli32"}, map[string]uint64{"loss24": 1 << 20})(s, g, n)
 		s.Sweep("fir40", uint64(n)*251*257+1)
 		if n > 1 {
-			for _, name := range []string{"header32-fields", "nack32-fields", "sli32-fields", "fir40-fields"} {
+			for _, name := range []string{"header32-fields", "nack32-fields", "sli32-fields", "fir40-fields", "headerplausible"} {
 				s.Sweep(name, 1)
 			}
 		}
